@@ -18,7 +18,7 @@ the same definitions with `fixed := false` are the current code and `Sqfs/Witnes
 these theorems is *false* for it, with a concrete witness that the check replays on the real code.
 -/
 import Sqfs.Proofs.ReaderBounds
-import Sqfs.Proofs.ReaderWalk
+import Sqfs.Proofs.ReaderWalkV
 namespace Sqfs.C05
 open Sqfs.ReaderBounds Sqfs.ReaderWalk
 
@@ -196,6 +196,98 @@ theorem dir_rec_terminates (g : DirGraph) (R : List Nat)
   · simp
   · simp
 
+/-! ## the repaired walks: every directory is entered at most once; nesting limit
+
+`fillDirV` / `dirRecV` are `fill_dir` and the recursive iterator with `fixes/C05-dir-visited-set.patch` (a set of
+the directories entered so far, shared by the whole walk) and `fixes/C05-nesting-limit.patch`
+(`SQFS_MAX_DIR_NESTING`; the theorems hold for every value `limit` of the constant).  The two theorems above are
+about the walks of the tree without these patches (ancestor checks only). -/
+
+/-- `fill_dir` with the visited set: for **every** directory graph (cycles, directories listed many times) a tree
+that is delivered has at most as many nodes as the directories of the image have listing entries — `R` is any
+duplicate-free list of inode references that contains the root and every entry that is a directory.  (The walk of
+the unpatched tree delivers `2^(n+1) - 2` nodes for `2n` entries: `Witness.dag_blowup_exponential`.) -/
+theorem fill_dir_nodes_linear (g : DirGraph) (limit fuel root n : Nat) (R : List Nat) (hn : R.Nodup)
+    (hR : ∀ r c, c ∈ g.entries r → g.isDir c = true → c ∈ R) (hroot : root ∈ R)
+    (h : readTreeV g limit fuel root = .ok n) : n ≤ listingEntries g R := by
+  unfold readTreeV at h
+  split at h
+  · rename_i n' vis' hf
+    simp only [Except.ok.injEq] at h; subst h
+    obtain ⟨m, e, E, ev, nE, dE, rE, s⟩ := fillDirV_grew g limit R hR _ _ _ _ _ _ _ hf
+    have hnod : (root :: E).Nodup := by
+      apply nodup_of_map_nodup g.inum
+      simp only [List.map_cons]
+      exact List.nodup_cons.2 ⟨fun hm => dE _ hm (by simp), nE⟩
+    have := sum_le_of_nodup_subset (fun r => (g.entries r).length) (root :: E) R hnod (by
+      intro x hx
+      rcases List.mem_cons.1 hx with rfl | hx
+      · exact hroot
+      · exact rE x hx)
+    simp only [listingEntries] at s ⊢
+    simp only [List.map_cons, List.sum_cons] at this
+    omega
+  · simp at h
+
+/-- the recursive iterator (sqfs2tar) with the visited set: the entries delivered are at most the listing of the
+start directory plus the listings of the directories of the image (the start directory has no recorded identity,
+so its listing may be counted once more) -/
+theorem dir_rec_nodes_linear (g : DirGraph) (limit fuel root n : Nat) (R : List Nat) (hn : R.Nodup)
+    (hR : ∀ r c, c ∈ g.entries r → g.isDir c = true → c ∈ R)
+    (h : tarWalkV g limit fuel root = .ok n) : n ≤ (g.entries root).length + listingEntries g R := by
+  unfold tarWalkV at h
+  split at h
+  · rename_i n' vis' hf
+    simp only [Except.ok.injEq] at h; subst h
+    obtain ⟨m, e, E, ev, nE, dE, rE, s⟩ := dirRecV_grew g limit R hR _ _ _ _ _ _ hf
+    simp only [List.map_id_fun, id_eq] at nE
+    have := sum_le_of_nodup_subset (fun r => (g.entries r).length) E R nE rE
+    simp only [listingEntries] at s ⊢
+    omega
+  · simp at h
+
+/-- `fill_dir` with the nesting limit: for every directory graph the recursion is at most `limit + 2` frames deep
+(`limit + 2` units of fuel are always enough: the walk ends with a tree, `LINK_LOOP` or `OVERFLOW`).  The same bound
+holds for `resolve_ids` and `sqfs_dir_tree_destroy`, which recurse over the tree `fill_dir` built. -/
+theorem fill_dir_depth_bounded (g : DirGraph) (limit root : Nat) :
+    readTreeV g limit (limit + 2) root ≠ .error .fuel := by
+  unfold readTreeV
+  have := fillDirV_depth g limit (limit + 2) 0 [g.inum root] [g.inum root] root (by omega) (by omega)
+  split
+  · simp
+  · rename_i e he; intro h; simp only [Except.error.injEq] at h; subst h; exact this he
+
+/-- the recursive iterator with the nesting limit: at most `limit + 1` iterators are ever on the stack -/
+theorem dir_rec_depth_bounded (g : DirGraph) (limit root : Nat) :
+    tarWalkV g limit (limit + 1) root ≠ .error .fuel := by
+  unfold tarWalkV
+  have := dirRecV_depth g limit (limit + 1) 1 [] root (by omega) (by omega)
+  split
+  · simp
+  · rename_i e he; intro h; simp only [Except.error.injEq] at h; subst h; exact this he
+
+/-- whatever the value of the nesting limit: `would_be_own_parent` still bounds the depth of the repaired `fill_dir`
+by the number of inode numbers -/
+theorem fill_dir_v_terminates (g : DirGraph) (limit : Nat) (S : List UInt32) (hS : ∀ r, g.inum r ∈ S) (root : Nat) :
+    readTreeV g limit S.length root ≠ .error .fuel := by
+  unfold readTreeV
+  have := fillDirV_ne_fuel g limit S hS S.length 0 [g.inum root] [g.inum root] root (by simp)
+    (by intro x hx; simp at hx; subst hx; exact hS root) (by simp)
+  split
+  · simp
+  · rename_i e he; intro h; simp only [Except.error.injEq] at h; subst h; exact this he
+
+/-- whatever the value of the nesting limit: the visited set alone (it replaces the ancestor list of the unpatched
+tree) bounds the depth of the recursive iterator by the number of directory inode references -/
+theorem dir_rec_v_terminates (g : DirGraph) (limit : Nat) (R : List Nat)
+    (hR : ∀ r c, c ∈ g.entries r → g.isDir c = true → c ∈ R) (root : Nat) :
+    tarWalkV g limit (R.length + 1) root ≠ .error .fuel := by
+  unfold tarWalkV
+  have := dirRecV_ne_fuel g limit R hR (R.length + 1) 1 [] root (by simp) (by simp) (by simp)
+  split
+  · simp
+  · rename_i e he; intro h; simp only [Except.error.injEq] at h; subst h; exact this he
+
 /-! ## non-vacuity: the hypotheses are satisfiable and the conclusions speak about real accesses -/
 
 /-- a reader over blocks of 100 uncompressed bytes -/
@@ -214,5 +306,19 @@ example : (readInodeDirExt 10 [3, 0xFFFFFFFF, 200]).isOk = true := by decide
 example : (resolveCompare true [97, 98] [97, 98, 47, 99]).1 = true := by decide
 example : readTree ⟨fun r => if r = 0 then [1, 2] else [], fun _ => true, fun r => r.toUInt32⟩ 3 0 = .ok 2 := by decide
 example : readTree ⟨fun _ => [0], fun _ => true, fun _ => 7⟩ 1 0 = .error .linkLoop := by decide
+
+/-- a tree, a directory listed twice (refused), and a chain one level deeper than the limit (refused) -/
+def exTree : DirGraph := ⟨fun r => if r = 0 then [1, 2] else if r = 1 then [3] else [], fun _ => true, fun r => r.toUInt32⟩
+def exShared : DirGraph := ⟨fun r => if r = 0 then [1, 1] else [], fun _ => true, fun r => r.toUInt32⟩
+def exChain : DirGraph := ⟨fun r => [r + 1], fun r => r < 4, fun r => r.toUInt32⟩
+example : readTreeV exTree 4096 5 0 = .ok 3 := by decide
+example : tarWalkV exTree 4096 5 0 = .ok 3 := by decide
+example : listingEntries exTree [0, 1, 2, 3] = 3 := by decide
+example : readTreeV exShared 4096 5 0 = .error .linkLoop := by decide
+example : tarWalkV exShared 4096 5 0 = .error .linkLoop := by decide
+example : readTreeV exChain 3 5 0 = .ok 4 := by decide        -- directories at level 1..3, a file at level 4
+example : readTreeV exChain 2 4 0 = .error .overflow := by decide
+example : tarWalkV exChain 3 4 0 = .ok 4 := by decide
+example : tarWalkV exChain 2 3 0 = .error .overflow := by decide
 
 end Sqfs.C05
